@@ -373,6 +373,49 @@ func TestVerifC18Batch(t *testing.T) {
 			res.Samples = append(res.Samples, fmt.Sprintf("grid point %d: %s -> %d encoded bytes; marshal/unmarshal and Add/Get(uncached, cached)/raw value/Delete", k, vC18ShowBatch(mb), len(mb.marshal())))
 		}
 	}
+	// length sweep ("text of any length"): a long first message followed by a short one, text lengths around
+	// powers of two up to 1 MiB; codec round trip and the value the real stream stores and decodes again
+	if shard == 0 {
+		for _, l := range []int{255, 256, 257, 4095, 4096, 4097, 65535, 65536, 65537, 70000, 131071, 131072, 1<<20 - 1, 1 << 20, 1<<20 + 1} {
+			for ri, rs := range []map[uint64]bool{{1: true}, {1: true, 2: true, math.MaxUint64: true}} {
+				id := uint64(1000000 + 2*l + ri)
+				mb := &messageBatch{NextID: math.MaxUint64, Messages: []Message{
+					{Id: robust.Id{Id: id, Reply: 1}, Data: strings.Repeat("a", l), InterestingFor: rs},
+					{Id: robust.Id{Id: id, Reply: 2}, Data: "tail", InterestingFor: map[uint64]bool{3: true}},
+				}}
+				res.Batches++
+				res.Distinct++
+				res.Nontrivial++
+				res.CodecTrips++
+				res.Evaluations++
+				func() {
+					defer func() {
+						if p := recover(); p != nil {
+							report("output batch codec panics", fmt.Sprintf("text of %d bytes, %d recipients: %v", l, len(rs), p), mb)
+						}
+					}()
+					back := unmarshalMessageBatch(mb.marshal())
+					if f, d := vC18CompareMsgs(back.Messages, mb.Messages); f != "" || back.NextID != mb.NextID {
+						report("output batch codec changes "+f, fmt.Sprintf("text of %d bytes, %d recipients: %s", l, len(rs), d), mb)
+						return
+					}
+					if err := o.Add(mb.Messages); err != nil {
+						report("Add fails", fmt.Sprintf("text of %d bytes: %v", l, err), mb)
+						return
+					}
+					// Add does not fill the decoded-batch cache: the first Get decodes the stored value
+					got, ok := o.Get(robust.Id{Id: id})
+					if !ok {
+						report("added batch not found", fmt.Sprintf("text of %d bytes", l), mb)
+						return
+					}
+					if f, d := vC18CompareMsgs(got, mb.Messages); f != "" {
+						report("batch read back from the stream differs ("+f+")", fmt.Sprintf("text of %d bytes, %d recipients: %s", l, len(rs), d), mb)
+					}
+				}()
+			}
+		}
+	}
 	b, _ := json.Marshal(res)
 	if out := os.Getenv("VERIF_OUT"); out != "" {
 		os.WriteFile(out, b, 0644)
